@@ -22,3 +22,19 @@ MUTANTS += [
     dict(property='C14', name='Gamma.diff2Loss drops y', file=LT, old="return shape*(residual+self._y)/yhat**3", new="return shape*(residual)/yhat**3"),
     dict(property='C14', name='gamma_mu_shape wrong scale term', file=D, old="logpdf_p3= -shape*np.log(mu/shape)", new="logpdf_p3= -shape*np.log(mu)"),
 ]
+MUTANTS += [
+    dict(property='C05', name='rexp reciprocal scale', file=D, old="    if n > 1:\n        return rvs(scale=1.0/rate, size=n)\n    else:\n        return rvs(scale=1.0/rate, size=n)[0]", new="    if n > 1:\n        return rvs(scale=1.0/rate, size=n)\n    else:\n        return rvs(scale=rate, size=n)[0]"),
+    dict(property='C05', name='firstReaction takes the latest clock', file=S, old="min_index = np.argmin(jump_times)", new="min_index = np.argmax(jump_times)"),
+    dict(property='C05', name='_newJumpTimes ignores the rate', file=S, old="tau = [rexp(1, r, seed=seed) if r > 0 else np.inf for r in rates]", new="tau = [rexp(1, 1.0, seed=seed) if r > 0 else np.inf for r in rates]"),
+    dict(property='C04', name='firstReaction one-hot count is 2', file=S, old="    jumps[min_index]=1\n", new="    jumps[min_index]=2\n"),
+    dict(property='C04', name='_updateStateWithJump uses a row', file=S, old="return x + state_change_mat[:, transition_index]*n", new="return x + state_change_mat[transition_index, :]*n"),
+    dict(property='C04', name='firstReaction stops when any rate is zero', file=S, old="    changes=state_change_mat(x, t)\n    rates = transition_func(x, t)\n    # For now we assume when all transition rates are zero, further simulation is not necessary.\n    if all(rates==0):\n        return 0, 0, 0, 0, False\n\n    # find our jump times", new="    changes=state_change_mat(x, t)\n    rates = transition_func(x, t)\n    # For now we assume when all transition rates are zero, further simulation is not necessary.\n    if any(rates==0):\n        return 0, 0, 0, 0, False\n\n    # find our jump times"),
+    dict(property='C16', name='firstReaction forces a fresh entropy stream', file=S, old="    jump_times = _newJumpTimes(rates, seed=seed)", new="    jump_times = _newJumpTimes(rates, seed=True)"),
+]
+MUTANTS += [
+    dict(property='C04', name='tauLeap Poisson mean ignores tau', file=S, old="n_event_occurances = rpois(1, tau_scale*r, seed=seed)", new="n_event_occurances = rpois(1, r, seed=seed)"),
+    dict(property='C04', name='tauLeap applies counts of previous event', file=S, old="new_x = _updateStateWithJump(new_x, i, changes, n_event_occurances)", new="new_x = _updateStateWithJump(new_x, max(i-1, 0), changes, n_event_occurances)"),
+    dict(property='C04', name='tauLeap drift not scaled by tau', file=S, old="new_x = new_x + determ_changes*tau_scale", new="new_x = new_x + determ_changes"),
+    dict(property='C10', name='tauLeap records counts but moves state by counts+1 for event 0', file=S, old="        jumps[i]=n_event_occurances\n", new="        jumps[i]=n_event_occurances\n        if i == 0:\n            n_event_occurances = n_event_occurances + 1\n"),
+    dict(property='C11', name='tauLeap bypasses the limit check when adaptive', file=S, old="    return  _checkJump(x, new_x, x_lims, t, tau_scale, jumps)", new="    if pre_tau is None:\n        return t + tau_scale, tau_scale, new_x, jumps, True\n    return  _checkJump(x, new_x, x_lims, t, tau_scale, jumps)"),
+]
